@@ -120,7 +120,7 @@ def combos(chk, rng):
     k = 0
     for (l1, o1, i1) in frames:
         confs = [('full', None, None, 0)]
-        confs += [('dist', None, None, d) for d in range(1, len(i1) + 1)]
+        confs += [('dist', None, None, d) for d in range(1, len(i1) + 3)]            # also distances larger than the frame
         for (l2, o2, i2) in frames:
             confs.append(('full', o2, i2, 0))
             if len(i2) == len(i1) and o1 is not ... and o2 is not ...:      # point-to-point needs two explicit frames (Ellipsis is refused at construction)
@@ -133,12 +133,12 @@ def combos(chk, rng):
                 mean = None
                 if op == 'centered_product':
                     if dt in ('uint8', 'int8', 'int16', 'float32') and k % 2:
-                        mean = [rng.randint(-3, 3) for _ in range(T)]
+                        mean = [rng.randint(-3, 3) for _ in range(T)] if k % 4 == 1 else [rng.randint(100, 120) for _ in range(T)]
                     else:
                         continue            # batch-mean centring is checked in first_order (documented batch dependence)
                 cfg = {'op': op, 'mode': mode, 'f1': i1, 'f2': i2 or [], 'd': d, 'mean': [dy(m) for m in mean] if mean else []}
                 cases.append({'kind': 'comb', 'cfg': cfg, 'rows': drows})
-                metas.append({'op': op, 'mode': mode, 'f1_obj': o1, 'f2_obj': o2, 'd': d, 'mean_obj': np.array(mean, dtype='float64') if mean else None, 'dtype': dt, 'rows': rows,
+                metas.append({'op': op, 'mode': mode, 'f1_obj': o1, 'f2_obj': o2, 'd': d, 'mean_obj': (np.array(mean, dtype='float64') if (k % 4 == 1 or dt not in ('uint8', 'int16')) else np.array(mean, dtype=dt)) if mean else None, 'dtype': dt, 'rows': rows,
                               'label': f'{op} frame_1={l1} frame_2={"-" if o2 is None else i2} mode={mode} d={d} {dt}', 'precision': 'float64' if k % 5 == 0 else None})
     res = run_cases(chk, cases, 'CASES:combinations')
     for ci, (c, m, r) in enumerate(zip(cases, metas, res)):
@@ -228,6 +228,11 @@ def first_order(chk, rng):
             g3 = np.asarray(pp.CenterOn(mean=mean)(traces))
             if not np.array_equal(g3.astype('float64'), traces.astype('float64') - mean):
                 chk.violation('CenterOn:subtracts the given mean', dict(ctx, property='C18'), f'CenterOn(mean) on {dt}')
+            if np.dtype(dt).kind in 'iu':          # a mean stored in the traces' own integer type (rounded batch mean, reference trace)
+                imean = np.array([np.iinfo(dt).max // 2 + 3, 7, 11, np.iinfo(dt).max], dtype=dt)
+                g5 = np.asarray(pp.CenterOn(mean=imean)(traces))
+                if g5.dtype.kind != 'f' or not np.array_equal(g5.astype('float64'), traces.astype('float64') - imean.astype('float64')):
+                    chk.violation('CenterOn:subtracts the given mean without wrap-around (integer mean)', dict(ctx, property='C18', mean=imean.tolist(), got=g5.tolist()), f'CenterOn(integer mean) on {dt}')
             g4 = np.asarray(pp.StandardizeOn(mean=mean, std=np.array([2.0, 4.0, 0.5, 1.0]))(traces))
             if not np.allclose(g4, (traces.astype('float64') - mean) / np.array([2.0, 4.0, 0.5, 1.0])):
                 chk.violation('StandardizeOn:uses the given mean and std', dict(ctx, property='C18'), f'StandardizeOn(mean, std) on {dt}')
